@@ -49,16 +49,18 @@ def _evaluate(mod, cases, outs, tag):
         else:
             terms.append(mod.emit(c, o))
             idx.append((i, 0))
-    try:
-        res = fw.eval_cases(mod.ID, mod.RUNNER, mod.CASE_TYPE, terms, tag=tag)
-    except RuntimeError as e:
-        if "inconsistent assumptions" not in str(e) and "Compiled library" not in str(e):
-            raise
-        # another check rebuilt Generated/Tables.vo in between: rebuild this runner and evaluate again
-        with fw.BuildLock():
-            fw.regenerate_tables()
-            fw.make(mod.RUNNER_TARGETS)
-        res = fw.eval_cases(mod.ID, mod.RUNNER, mod.CASE_TYPE, terms, tag=tag)
+    res = None
+    for attempt in range(4):
+        try:
+            res = fw.eval_cases(mod.ID, mod.RUNNER, mod.CASE_TYPE, terms, tag=tag)
+            break
+        except RuntimeError as e:
+            if attempt == 3 or ("inconsistent assumptions" not in str(e) and "Compiled library" not in str(e)):
+                raise
+            # another check rebuilt Generated/Tables.vo in between: rebuild this runner and evaluate again
+            with fw.BuildLock():
+                fw.regenerate_tables()
+                fw.make(mod.RUNNER_TARGETS)
     back = {"sub": {}}
     for k in ("corr", "spec", "wf"):
         back[k] = set()
